@@ -14,7 +14,7 @@ for p in props:
     print(f"\n#### {pid} {p['title']}\n")
     print(f"Obligations discharged (T1): **{cov['discharged']}/{cov['obligations']}**; solver time {cov.get('solver_ms', 0)} ms; "
           f"bounded cases this run: {cov.get('evaluations', 0)}.\n")
-    rows = [ct for ct in C.CONTRACTS.values() if ct.prop == pid]
+    rows = [ct for ct in C.CONTRACTS.values() if ct.prop == pid or pid in ct.also]
     if rows:
         print("| contract | function | proved clauses | status |")
         print("|---|---|---|---|")
